@@ -13,8 +13,42 @@ Record wf_store (st : store) : Prop := mkWf {
       l_start l1 = l_start l2 -> is_pess l1 = false -> is_pess l2 = false -> l_primary l1 = l_primary l2;
   (* W3 the key named as primary by a pessimistic lock holds no secondary prewrite lock of that start ts *)
   wf_w3 : forall r1 r2 l1 l2, In r1 st -> In r2 st -> k_lock r1 = Some l1 -> k_lock r2 = Some l2 ->
-      l_start l1 = l_start l2 -> is_pess l1 = true -> is_pess l2 = false -> k_key r2 = l_primary l1 -> l_primary l2 = k_key r2
+      l_start l1 = l_start l2 -> is_pess l1 = true -> is_pess l2 = false -> k_key r2 = l_primary l1 -> l_primary l2 = k_key r2;
+  (* W4 the "lock missing" answers of the secondaries of an async-commit primary lock agree *)
+  wf_w4 : forall r l k1 k2 c1 c2, In r st -> k_lock r = Some l -> l_async l = true -> In k1 (l_secs l) -> In k2 (l_secs l) ->
+      sec_answer_of st (l_start l) k1 = SMissing c1 -> sec_answer_of st (l_start l) k2 = SMissing c2 -> c1 = c2;
+  (* W5 an async-commit lock is a prewrite lock *)
+  wf_w5 : forall r l, In r st -> k_lock r = Some l -> l_async l = true -> is_pess l = false
 }.
+
+(* decide: a missing answer decides *)
+Lemma decide_missing V answers : forall acc, (exists c, In (SMissing c) answers) -> (forall c, In (SMissing c) answers -> c = V) -> decide acc answers = V.
+Proof.
+  induction answers as [|a rest IH]; intros acc [c Hc] Hall; [destruct Hc|].
+  destruct a as [mc|c']; cbn [decide].
+  - apply IH; [destruct Hc as [Hc|Hc]; [discriminate|exists c; exact Hc]|intros x Hx; apply Hall; right; exact Hx].
+  - apply Hall; left; reflexivity.
+Qed.
+(* answers may only change from "locked" to "missing, decided as V" *)
+Definition ans_rel (V : option N) (a0 a : sec_answer) : Prop := a = a0 \/ exists mc, a0 = SLocked mc /\ a = SMissing V.
+Lemma decide_stable V acc : forall ans0 ans, Forall2 (ans_rel V) ans0 ans -> decide acc ans0 = V ->
+  (forall c1 c2, In (SMissing c1) ans0 -> In (SMissing c2) ans0 -> c1 = c2) -> decide acc ans = V.
+Proof.
+  intros ans0 ans HR HV Hagree.
+  assert (Hm0 : forall c, In (SMissing c) ans0 -> c = V).
+  { intros c Hc. rewrite <- HV. symmetry. apply decide_missing; [exists c; exact Hc|intros c' Hc'; exact (Hagree _ _ Hc' Hc)]. }
+  assert (Hm : forall c, In (SMissing c) ans -> c = V).
+  { clear HV Hagree. induction HR as [|a0 a l0 l Ha _ IH]; intros c Hc; [destruct Hc|].
+    destruct Hc as [Hc|Hc].
+    - destruct Ha as [Ha|(mc & _ & Ha)]; [|congruence]. apply Hm0. left. congruence.
+    - apply IH; [intros x Hx; apply Hm0; right; exact Hx|exact Hc]. }
+  assert (Hex : (exists c, In (SMissing c) ans) \/ ans = ans0).
+  { clear - HR. induction HR as [|a0 a l0 l Ha _ IH]; [right; reflexivity|].
+    destruct a as [mc|c]; [|left; exists c; left; reflexivity].
+    destruct IH as [[c Hc]| ->]; [left; exists c; right; exact Hc|].
+    destruct Ha as [-> |(mc' & _ & Ha)]; [right; reflexivity|discriminate]. }
+  destruct Hex as [Hex| ->]; [apply decide_missing; assumption|exact HV].
+Qed.
 
 Section Inv.
   Variable st0 : store.
@@ -91,23 +125,80 @@ Section Inv.
       right; eexists; eexists; (split; [reflexivity|split; [reflexivity|reflexivity]]).
   Qed.
 
+  Lemma apply_outcome_writes r l oc : is_pess l = false ->
+    committed_in (k_writes (apply_outcome r l oc)) (l_start l) = match oc with Some c => Some c | None => committed_in (k_writes r) (l_start l) end.
+  Proof.
+    unfold apply_outcome, is_pess. destruct oc as [c|], (l_kind l); intros H; try discriminate; cbn [k_writes clear_lock]; try reflexivity;
+      rewrite committed_in_cons; cbn [w_start w_commit]; rewrite N.eqb_refl; reflexivity.
+  Qed.
+  Lemma committed_at_found st p t r : find_key st p = Some r ->
+    committed_at st p t = match k_lock r with
+                          | Some l => if (l_start l =? t) && l_async l then async_decide st l else committed_in (k_writes r) t
+                          | None => committed_in (k_writes r) t end.
+  Proof. intros H. unfold committed_at. rewrite H. reflexivity. Qed.
+
+  (* the answers of the secondaries of an async-commit primary only move from "locked" to "missing, as decided" *)
+  Lemma answer_stable st rp0 l k : InvP st -> In rp0 st0 -> k_lock rp0 = Some l -> l_async l = true -> k_key rp0 = l_primary l ->
+    ans_rel (async_decide st0 l) (sec_answer_of st0 (l_start l) k) (sec_answer_of st (l_start l) k).
+  Proof.
+    intros HI Hin Hl Ha Hkp. pose proof (wf_w5 _ Hwf _ _ Hin Hl Ha) as Hnp. set (t := l_start l).
+    assert (HD : committed_at st0 (l_primary l) t = async_decide st0 l).
+    { rewrite <- Hkp. rewrite (committed_at_found st0 _ t rp0 (find_key_in _ _ uniq0 Hin)), Hl. unfold t. rewrite N.eqb_refl, Ha. reflexivity. }
+    unfold sec_answer_of. destruct (find_key st k) as [rk|] eqn:E.
+    - destruct (InvP_find _ _ _ HI E) as (rk0 & Hf0 & Hin0 & Hr). rewrite Hf0.
+      destruct Hr as [->|[Hold ->]]; [left; reflexivity|].
+      destruct (old_lock_inv _ Hold) as (l2 & Hl2 & Hle). rewrite (resolved_lock _ Hold), Hl2.
+      rewrite (resolve_unfold _ _ Hl2 Hle).
+      destruct ((l_start l2 =? t) && negb (is_pess l2)) eqn:Eb.
+      + apply Bool.andb_true_iff in Eb as [Et Ep]. apply N.eqb_eq in Et. apply Bool.negb_true_iff in Ep.
+        right. exists (l_min_commit l2). split; [reflexivity|]. f_equal.
+        assert (Hp2 : l_primary l2 = l_primary l) by (apply (wf_w2 _ Hwf rk0 rp0 l2 l); assumption).
+        rewrite Hp2, Et, HD. rewrite <- Et. rewrite (apply_outcome_writes _ _ _ Ep).
+        destruct (async_decide st0 l); [reflexivity|]. apply (wf_w1 _ Hwf _ _ Hin0 Hl2).
+      + left. f_equal. unfold apply_outcome. destruct (committed_at st0 (l_primary l2) (l_start l2)) as [c|]; [|destruct (l_kind l2); reflexivity].
+        destruct (l_kind l2) eqn:Ek; cbn [k_writes clear_lock]; try reflexivity; rewrite committed_in_cons; cbn [w_start w_commit];
+          (destruct (l_start l2 =? t) eqn:Et; [|reflexivity]); unfold is_pess in Eb; rewrite Ek in Eb; cbn in Eb; discriminate.
+    - rewrite (InvP_find_none _ _ HI E). left; reflexivity.
+  Qed.
+  Lemma async_decide_stable st rp0 l : InvP st -> In rp0 st0 -> k_lock rp0 = Some l -> l_async l = true -> k_key rp0 = l_primary l ->
+    async_decide st l = async_decide st0 l.
+  Proof.
+    intros HI Hin Hl Ha Hkp. unfold async_decide at 1. apply (decide_stable _ _ (map (sec_answer_of st0 (l_start l)) (l_secs l))).
+    - induction (l_secs l) as [|k ks IH]; cbn [map]; constructor; [eapply answer_stable; eassumption|exact IH].
+    - reflexivity.
+    - intros c1 c2 H1 H2. apply in_map_iff in H1 as (k1 & H1 & Hk1). apply in_map_iff in H2 as (k2 & H2 & Hk2).
+      exact (wf_w4 _ Hwf _ _ _ _ _ _ Hin Hl Ha Hk1 Hk2 H1 H2).
+  Qed.
+
   (* outcomes never change: for every (p,t) that is a transaction identity *)
   Lemma outcome_stable st p t : InvP st ->
     (forall r l, In r st0 -> k_lock r = Some l -> l_start l = t -> is_pess l = false -> l_primary l = p) ->
     committed_at st p t = committed_at st0 p t.
   Proof.
-    intros HI Hid. unfold committed_at at 1. destruct (find_key st p) as [rp|] eqn:E.
-    - destruct (InvP_find _ _ _ HI E) as (rp0 & Hf0 & Hin0 & Hr). unfold committed_at. rewrite Hf0.
-      destruct Hr as [->|[Hold ->]]; [reflexivity|].
-      destruct (old_lock_inv _ Hold) as (l0 & Hl0 & Hle).
-      destruct (resolved_writes _ _ Hl0 Hle) as [->|(c & v & Hc & Hp & ->)]; [reflexivity|].
-      rewrite committed_in_cons. cbn [w_start w_commit].
-      destruct (l_start l0 =? t) eqn:Et; [|reflexivity]. exfalso. apply N.eqb_eq in Et.
-      pose proof (Hid _ _ Hin0 Hl0 Et Hp) as Hprim.
-      apply find_key_some in Hf0 as [_ Hk0].
-      unfold committed_at in Hc. rewrite Hprim in Hc. rewrite <- Hk0 in Hc. rewrite (find_key_in _ _ uniq0 Hin0) in Hc.
-      rewrite (wf_w1 _ Hwf _ _ Hin0 Hl0) in Hc. discriminate.
-    - unfold committed_at. rewrite (InvP_find_none _ _ HI E). reflexivity.
+    intros HI Hid. destruct (find_key st p) as [rp|] eqn:E.
+    - destruct (InvP_find _ _ _ HI E) as (rp0 & Hf0 & Hin0 & Hr).
+      rewrite (committed_at_found _ _ _ _ E), (committed_at_found _ _ _ _ Hf0).
+      pose proof (find_key_some _ _ _ Hf0) as [_ Hk0].
+      destruct Hr as [->|[Hold ->]].
+      + destruct (k_lock rp0) as [l|] eqn:Hl; [|reflexivity].
+        destruct ((l_start l =? t) && l_async l) eqn:Eb; [|reflexivity].
+        apply Bool.andb_true_iff in Eb as [Et Ea]. apply N.eqb_eq in Et.
+        apply (async_decide_stable st rp0 l HI Hin0 Hl Ea). rewrite Hk0. symmetry.
+        apply (Hid _ _ Hin0 Hl Et (wf_w5 _ Hwf _ _ Hin0 Hl Ea)).
+      + destruct (old_lock_inv _ Hold) as (l0 & Hl0 & Hle). rewrite (resolved_lock _ Hold), Hl0.
+        destruct ((l_start l0 =? t) && l_async l0) eqn:Eb.
+        * apply Bool.andb_true_iff in Eb as [Et Ea]. apply N.eqb_eq in Et.
+          pose proof (wf_w5 _ Hwf _ _ Hin0 Hl0 Ea) as Hnp. pose proof (Hid _ _ Hin0 Hl0 Et Hnp) as Hprim.
+          rewrite (resolve_unfold _ _ Hl0 Hle). rewrite <- Et. rewrite (apply_outcome_writes _ _ _ Hnp).
+          rewrite Hprim, <- Hk0, (committed_at_found _ _ _ _ (find_key_in _ _ uniq0 Hin0)), Hl0, N.eqb_refl, Ea. cbn [andb].
+          destruct (async_decide st0 l0); [reflexivity|]. apply (wf_w1 _ Hwf _ _ Hin0 Hl0).
+        * destruct (resolved_writes _ _ Hl0 Hle) as [->|(c & v & Hc & Hp & ->)]; [reflexivity|].
+          rewrite committed_in_cons. cbn [w_start w_commit].
+          destruct (l_start l0 =? t) eqn:Et; [|reflexivity]. exfalso. cbn [andb] in Eb. apply N.eqb_eq in Et.
+          pose proof (Hid _ _ Hin0 Hl0 Et Hp) as Hprim.
+          rewrite Hprim, <- Hk0, (committed_at_found _ _ _ _ (find_key_in _ _ uniq0 Hin0)), Hl0, N.eqb_refl, Eb in Hc. cbn [andb] in Hc.
+          rewrite (wf_w1 _ Hwf _ _ Hin0 Hl0) in Hc. discriminate.
+    - unfold committed_at. rewrite E, (InvP_find_none _ _ HI E). reflexivity.
   Qed.
   Lemma outcome_stable_lock st r0 l : InvP st -> In r0 st0 -> k_lock r0 = Some l -> is_pess l = false ->
     committed_at st (l_primary l) (l_start l) = committed_at st0 (l_primary l) (l_start l).
@@ -130,22 +221,23 @@ Section Inv.
 
   (* the lock of t found on p may be rolled back *)
   Lemma primary_lock_rollbackable p t rp0 l' : justified p t -> In rp0 st0 -> k_key rp0 = p -> k_lock rp0 = Some l' -> l_start l' = t ->
-    is_pess l' = true \/ committed_at st0 (l_primary l') (l_start l') = None.
+    l_async l' = false -> is_pess l' = true \/ committed_at st0 (l_primary l') (l_start l') = None.
   Proof.
-    intros (r0 & l & Hin & Hl & Hp & Ht & Hle) Hinp Hkp Hl' Ht'.
+    intros (r0 & l & Hin & Hl & Hp & Ht & Hle) Hinp Hkp Hl' Ht' Hna.
     destruct (is_pess l') eqn:Ep; [left; reflexivity|right].
     assert (Hprim : l_primary l' = p).
     { destruct (is_pess l) eqn:Epl.
       - rewrite <- Hkp. apply (wf_w3 _ Hwf r0 rp0 l l'); try assumption; congruence.
       - rewrite <- Hp. apply (wf_w2 _ Hwf rp0 r0 l' l); try assumption; congruence. }
-    unfold committed_at. rewrite Hprim, <- Hkp, (find_key_in _ _ uniq0 Hinp). apply (wf_w1 _ Hwf _ _ Hinp Hl').
+    rewrite Hprim, <- Hkp, (committed_at_found _ _ _ _ (find_key_in _ _ uniq0 Hinp)), Hl', Hna, Bool.andb_false_r.
+    apply (wf_w1 _ Hwf _ _ Hinp Hl').
   Qed.
 
   Lemma status_check_inv st p t : InvP st -> justified p t -> InvP (fst (status_check st p t)).
   Proof.
     intros HI Hj. unfold status_check. destruct (find_key st p) as [rp|] eqn:E; [|exact HI].
     destruct (k_lock rp) as [l'|] eqn:El; [|exact HI].
-    destruct (l_start l' =? t) eqn:Et; [|exact HI]. cbn [fst]. apply N.eqb_eq in Et.
+    destruct (l_start l' =? t) eqn:Et; [|exact HI]. destruct (l_async l' && negb (is_pess l')) eqn:Ea; [exact HI|]. cbn [fst]. apply N.eqb_eq in Et.
     rewrite upd_key_map. apply InvP_map; [exact HI| |].
     - intros r. destruct (bytes_eqb _ _); reflexivity.
     - intros r r0 Hin Hin0 Hr. destruct (bytes_eqb (k_key r) p) eqn:Ek; [|exact Hr].
@@ -154,7 +246,8 @@ Section Inv.
       pose proof (rel0_lock _ _ _ Hr El) as ->.
       destruct Hj as (rj & lj & Hj). pose proof Hj as (_ & _ & _ & _ & Hle).
       eapply rel0_clear; [exact El|rewrite Et; exact Hle|].
-      eapply primary_lock_rollbackable; [exists rj, lj; exact Hj|exact Hin0|exact Ek|exact El|exact Et].
+      destruct (is_pess l') eqn:Epp; [left; reflexivity|]. rewrite Bool.andb_true_r in Ea.
+      destruct (primary_lock_rollbackable p t r0 l') as [G|G]; try assumption; [exists rj, lj; exact Hj|congruence|right; exact G].
   Qed.
 
   (* the value returned by the status check of a prewrite lock's transaction is its outcome *)
@@ -162,12 +255,15 @@ Section Inv.
     snd (status_check st (l_primary l) (l_start l)) = committed_at st0 (l_primary l) (l_start l).
   Proof.
     intros HI Hin Hl Hp Hle. rewrite <- (outcome_stable_lock _ _ _ HI Hin Hl Hp).
-    unfold status_check, committed_at. destruct (find_key st (l_primary l)) as [rp|] eqn:E; [|reflexivity].
+    unfold status_check. destruct (find_key st (l_primary l)) as [rp|] eqn:E; [|unfold committed_at; rewrite E; reflexivity].
+    rewrite (committed_at_found _ _ _ _ E).
     destruct (k_lock rp) as [l'|] eqn:El; [|reflexivity].
-    destruct (l_start l' =? l_start l) eqn:Et; [|reflexivity]. cbn [snd]. apply N.eqb_eq in Et.
-    destruct (InvP_find _ _ _ HI E) as (rp0 & Hf0 & Hin0 & Hr).
+    destruct (l_start l' =? l_start l) eqn:Et; [|reflexivity].
+    apply N.eqb_eq in Et. destruct (InvP_find _ _ _ HI E) as (rp0 & Hf0 & Hin0 & Hr).
     pose proof (rel0_lock _ _ _ Hr El) as ->.
-    rewrite <- Et. symmetry. apply (wf_w1 _ Hwf _ _ Hin0 El).
+    destruct (l_async l') eqn:Ea; cbn [snd andb].
+    - rewrite (wf_w5 _ Hwf _ _ Hin0 El Ea). reflexivity.
+    - rewrite <- Et. symmetry. apply (wf_w1 _ Hwf _ _ Hin0 El).
   Qed.
 
   Lemma pess_rollback_inv st k t : InvP st -> t <= sp -> InvP (pess_rollback st k t).
@@ -264,6 +360,38 @@ Section Inv.
         intros r0 l0 Hin Hl0 Ht0 Hp0. rewrite (Hv eq_refl Hle), <- Et.
         f_equal. apply (wf_w2 _ Hwf r r0 l l0); try assumption. congruence.
       + apply Hok; exact Ha.
+  Qed.
+
+  (* with the primary check of TiKV: no PrimaryMismatch ever when primaries are well-formed *)
+  Definition primaries_ok : Prop := forall r1 r2 l1 l2, In r1 st0 -> In r2 st0 -> k_lock r1 = Some l1 -> k_lock r2 = Some l2 ->
+    l_start l1 = l_start l2 -> k_key r2 = l_primary l1 -> l_primary l2 = k_key r2.
+  Lemma collect_v_ok locks : primaries_ok -> forall st infos, InvP st -> infos_ok infos -> from0 locks ->
+    collect_v st locks infos = Some (collect st locks infos).
+  Proof.
+    intros Hpo. induction locks as [|r rest IH]; intros st infos HI Hok Hfrom; cbn [collect collect_v]; [reflexivity|].
+    assert (Hfrom' : from0 rest) by (intros x Hx; apply Hfrom; right; exact Hx).
+    destruct (Hfrom r (or_introl eq_refl)) as [Hin0 Hold].
+    destruct (k_lock r) as [l|] eqn:El; [|apply IH; assumption].
+    destruct (assoc (l_start l) infos) eqn:Ea; [apply IH; assumption|].
+    destruct (old_lock_inv _ Hold) as (l2 & El2 & Hle). rewrite El in El2; injection El2 as <-.
+    assert (Hnm : primary_mismatch st (l_primary l) (l_start l) = false).
+    { unfold primary_mismatch. destruct (find_key st (l_primary l)) as [rp|] eqn:E; [|reflexivity].
+      destruct (k_lock rp) as [l'|] eqn:El'; [|reflexivity]. destruct (l_start l' =? l_start l) eqn:Et; [|reflexivity]. cbn [andb].
+      apply N.eqb_eq in Et. destruct (InvP_find _ _ _ HI E) as (rp0 & Hf0 & Hinp & Hr). pose proof (rel0_lock _ _ _ Hr El') as ->.
+      apply find_key_some in Hf0 as [_ Hk]. rewrite (Hpo r rp0 l l' Hin0 Hinp El El' (eq_sym Et) Hk), Hk, bytes_eqb_refl. reflexivity. }
+    rewrite Hnm.
+    assert (Hj : justified (l_primary l) (l_start l)) by (exists r, l; auto).
+    pose proof (status_check_inv st _ _ HI Hj) as HI1.
+    pose proof (status_check_value st r l HI Hin0 El) as Hv.
+    destruct (status_check st (l_primary l) (l_start l)) as [st1 oc]. cbn [fst snd] in *.
+    destruct (is_pess l) eqn:Ep.
+    - apply IH; [|exact Hok|exact Hfrom']. destruct (bytes_eqb _ _); [exact HI1|apply pess_rollback_inv; assumption].
+    - apply IH; [exact HI1| |exact Hfrom'].
+      intros t oc' Ha'. cbn [assoc] in Ha'. destruct (l_start l =? t) eqn:Et.
+      + apply N.eqb_eq in Et. injection Ha' as <-. split; [rewrite <- Et; exact Hle|].
+        intros r0 l0 Hin Hl0 Ht0 Hp0. rewrite (Hv eq_refl Hle), <- Et.
+        f_equal. apply (wf_w2 _ Hwf r r0 l l0); try assumption. congruence.
+      + apply Hok; exact Ha'.
   Qed.
 
   Lemma infos_ok_nil : infos_ok [].
